@@ -1139,7 +1139,8 @@ class Interp:
     def e_match(self, e, env):
         v = self.expr(e["e"], env)
         arms = e["arms"]
-        if isinstance(v, (VOpaque, Sym)) and len(arms) == 2 and not (isinstance(v, VOpaque) and not v.args):
+        concrete_opt = isinstance(v, VOpaque) and v.name in ("Some", "None") and len(v.args) == (1 if v.name == "Some" else 0)
+        if isinstance(v, (VOpaque, Sym)) and len(arms) == 2 and not (isinstance(v, VOpaque) and not v.args) and not concrete_opt:
             # `match OPT { Some(p) => E, None => return X }` on a symbolic option: one early-exit event, then E with p bound
             some = [a for a in arms if a["pat"]["k"] == "tuple_struct" and a["pat"]["path"].split("::")[-1] == "Some"]
             none = [a for a in arms if a["pat"]["k"] in ("path", "ident") and (a["pat"].get("path") or a["pat"].get("name", "")).split("::")[-1] == "None"]
@@ -1181,6 +1182,8 @@ class Interp:
             return "::".join(pat["path"].split("::")[-2:]) == v.name
         if k == "tuple_struct" and isinstance(v, VOpaque) and "::" in v.name and len(pat["elems"]) == len(v.args):
             return "::".join(pat["path"].split("::")[-2:]) == v.name
+        if k == "tuple_struct" and isinstance(v, VOpaque) and v.name in ("Some", "None") and len(v.args) == (1 if v.name == "Some" else 0):
+            return pat["path"].split("::")[-1] == v.name and len(pat["elems"]) == len(v.args)      # a concrete Option
         if k == "lit" and isinstance(v, bool):
             return pat["text"] == str(v).lower()
         if k == "lit" and isinstance(v, int):
@@ -1800,6 +1803,9 @@ class Interp:
             elif args:
                 alt = args[0]
             return VOpaque(m, [recv.v, alt if alt is not None else UNIT])
+        if m == "map" and isinstance(recv, VOpaque) and recv.name in ("Some", "None") and len(recv.args) == (1 if recv.name == "Some" else 0) \
+                and isinstance(args[0], VClosure):
+            return VOpaque("Some", [self.call_closure(args[0], [recv.args[0]])]) if recv.name == "Some" else recv      # Option::map, concrete
         if m in ("unwrap_or", "unwrap", "expect", "unwrap_or_else") and isinstance(recv, VOpaque) and recv.name in ("Some", "None") \
                 and len(recv.args) == (1 if recv.name == "Some" else 0):
             if recv.name == "Some":
@@ -1930,8 +1936,10 @@ class Interp:
         # ---- contracts (by method name, optionally qualified by receiver hint)
         for key in self.method_keys(e, recv, m):
             if key in self.contracts:
-                self.calls.append(key)
-                return self.contracts[key](self, recv, args)
+                r_ = self.contracts[key](self, recv, args)
+                if r_ is not NotImplemented:
+                    self.calls.append(key)
+                    return r_
         if isinstance(recv, Sym) and recv.path.startswith("self.") and recv.path.count(".") == 1 and not m.startswith("is_") \
                 and m not in READONLY_METHODS and getattr(self, "trace_fields", True):
             # an unknown (possibly mutating) method on a field of `self`: an uninterpreted EFFECT on that field, recorded in the trace
